@@ -584,7 +584,7 @@ def obligations(tier):
   s = I(0, 2)
   o = I(0, NOPS_NNX - 1)
   a = I(0, 2)
-  nmax = 3 if quick else 4
+  nmax = 3
   dp = I(2, 2) if quick else I(3, 3)
   ml = I(3, 3) if quick else I(6, 6)
   return [
